@@ -224,7 +224,9 @@ func GenerateContext(values []float64) *Context {
 
 	distinctCount := 1
 	for i := range values {
-		if i > 0 && values[i] != values[i-1] {
+		// compare bit patterns: -0.0 == +0.0 and NaN != NaN as floats, but the
+		// same-value and RLE encodings must reproduce every value bit for bit
+		if i > 0 && math.Float64bits(values[i]) != math.Float64bits(values[i-1]) {
 			distinctCount++
 		}
 
